@@ -296,6 +296,92 @@ func RunC15(tier string) int {
 		}
 		run.Sample(map[string]any{"case": i, "shape": a.Spec.Shape(), "history_minimal": b.Log})
 	})
+	// directed: one cached dependency, several dependants that all miss the cache at once while
+	// the dependency's blobs are gone and the workspace is a fresh checkout - every dependant asks
+	// for the lost outputs at the same moment; the dependency must be re-run once, by one of them
+	Parallel(tierN(tier, 16, 160), func(i int) {
+		r := rng.Derive(uint64(run.Seed), "C15-fan", fmt.Sprint(i))
+		k := r.Range(2, 4)
+		s := &spec.Spec{Files: map[string]string{"gen.in": r.Word(3, 20) + "\n"}}
+		gen := &spec.Target{Name: "gen", Salt: r.Word(4, 8), Inputs: []string{"gen.in"}, SleepMs: r.Range(60, 250),
+			Outs: []spec.Out{{Kind: "file", Path: "gen.out"}}}
+		if r.Chance(1, 2) {
+			gen.Outs = append(gen.Outs, spec.Out{Kind: "dir", Path: rng.Pick(r, []string{"gen.d", "fltgen.d", "dupgen.d"})})
+		}
+		if r.Chance(1, 3) {
+			gen.Pkg = "lib"
+			s.Files = map[string]string{"lib/gen.in": r.Word(3, 20) + "\n"}
+		}
+		s.Targets = append(s.Targets, gen)
+		for j := 0; j < k; j++ {
+			ref := gen.Label()
+			if r.Chance(1, 3) {
+				al := &spec.Alias{Name: fmt.Sprintf("al%d", j), Actual: ref}
+				s.Aliases = append(s.Aliases, al)
+				ref = al.Label()
+			}
+			in := fmt.Sprintf("d%d.in", j)
+			s.Files[in] = r.Word(3, 20) + "\n"
+			s.Targets = append(s.Targets, &spec.Target{Name: fmt.Sprintf("d%d", j), Salt: r.Word(4, 8), Deps: []string{ref}, Inputs: []string{in},
+				Outs: []spec.Out{{Kind: "file", Path: fmt.Sprintf("d%d.out", j)}}})
+		}
+		gcfg := grogCfgWorkers(r.Range(k, k+2))
+		gcfg.LoadOutputs = "minimal"
+		env, err := NewEnv(st.Base, fmt.Sprintf("fan%d", i), st.Grog, st.Vctl, s, gcfg)
+		if err != nil {
+			run.Infra(err.Error())
+			return
+		}
+		keep := false
+		defer func() {
+			if !keep {
+				env.Cleanup()
+			}
+		}()
+		hookLog := env.EnableHookLog()
+		cfg := BuildCfg{EnableCache: true, Minimal: true}
+		if _, obs, vs, err := env.Step(BuildOpts{}, cfg, "cold", false); err != nil || obs.Res.Exit != 0 || len(vs) > 0 {
+			run.Count("fan_cases_skipped_cold_build_diverged", 1)
+			return
+		}
+		env.WipeOutputs()
+		n := env.DeleteBlobsOf(gen.Label(), hookLog, func(idx, n int) bool { return true })
+		env.Logf("deleted %d blobs of %s from the cache", n, gen.Label())
+		for _, t := range s.Targets[1:] {
+			t := t
+			env.Apply(func() string { t.Salt = r.Word(4, 8); return "command-change" })
+		}
+		for k := range env.Memo {
+			env.Memo[k] = "lost"
+		}
+		_, ob, vs, err := env.Step(BuildOpts{}, cfg, "fan-fault", false)
+		if err != nil {
+			run.Infra(err.Error())
+			return
+		}
+		run.Eval(1)
+		run.Count("fan_fault_builds", 1)
+		run.Count("fan_dependants_asking_at_once", k)
+		if ob.Started[gen.Label()] > 0 {
+			run.Nontrivial(fmt.Sprintf("fan|k=%d|outs=%d", k, len(gen.Outs)))
+		}
+		rep := func(sig, what string) {
+			keep = !run.Violation(sig, what, map[string]any{"case": i, "history_minimal": env.Log, "stdout_minimal": tail(ob.Res.Stdout, 1500), "trace": ob.Order}) || keep
+		}
+		switch {
+		case ob.Res.Exit != 0:
+			rep("exit-status-differs under-cache-fault", fmt.Sprintf("mode minimal failed (exit %d) where mode all re-runs the dependency and succeeds: %s", ob.Res.Exit, tail(ob.Res.Stdout+ob.Res.Stderr, 400)))
+		case ob.Ended[gen.Label()] > 1 || ob.Overlap[gen.Label()] > 0:
+			rep("dependency-executed-twice-in-one-build under-cache-fault", fmt.Sprintf("%s was re-run %d times (overlapping pairs: %d) for %d dependants asking for its lost outputs", gen.Label(), ob.Started[gen.Label()], ob.Overlap[gen.Label()], k))
+		default:
+			for _, v := range vs {
+				if v.Kind == "view" || v.Kind == "bytes" {
+					rep(v.Sig, "minimal mode: "+v.What)
+					break
+				}
+			}
+		}
+	})
 	run.Assume("under injected cache faults the executed sets may legitimately differ (a dependency whose outputs are irretrievable must be re-run under minimal, while under all they are already in the workspace): only exit status, dependency views and bytes are judged there")
 	return run.Finish()
 }
